@@ -61,6 +61,7 @@ type c13Run struct {
 	handled     [][]byte
 	fails       []c13Fail
 	decoded     atomic.Int64
+	trace       []string // state transitions as traced (diagnostics for stall reports)
 	transitions atomic.Int64
 
 	maxPending    int
@@ -86,6 +87,15 @@ func c13Tracer(ev protocol.VerifEvent) {
 		// computing the next state and publishing it, so sleeping here is the same as
 		// that goroutine being descheduled. It widens the window in which the read
 		// loop still sees the previous state (and its byte limit).
+		r.mu.Lock()
+		if len(r.trace) < 400 {
+			e := ""
+			if ev.Err != nil {
+				e = " ERR"
+			}
+			r.trace = append(r.trace, fmt.Sprintf("%s-%d->%s%s", ev.From.Name, ev.MsgType, ev.To.Name, e))
+		}
+		r.mu.Unlock()
 		if n := int(r.transitions.Add(1)) - 1; n < len(r.c.TransDelays) {
 			if d := r.c.TransDelays[n]; d == 1 {
 				runtime.Gosched()
@@ -121,6 +131,12 @@ func c13Tracer(ev protocol.VerifEvent) {
 		r.cond.Broadcast()
 		r.mu.Unlock()
 	}
+}
+
+func (r *c13Run) traceCopy() []string {
+	r.mu.Lock()
+	defer r.mu.Unlock()
+	return append([]string(nil), r.trace...)
 }
 
 func (r *c13Run) failLocked(key, what string, extra map[string]any) {
@@ -412,8 +428,8 @@ func genSizesUnderLimit(rt *rapid.T, n, min, limit, typical int) []int {
 func genC13Case(rt *rapid.T, thorough bool) *c13Case {
 	c := &c13Case{Oversize: -1, Gate: -1}
 	c.Family = rapid.SampledFrom([]string{
-		"blob-server", "blob-server", "blob-server", "blob-server", "blob-client", "blob-client",
-		"chainsync", "chainsync", "blockfetch", "blockfetch", "incomplete", "large-legal",
+		"blob-server", "blob-server", "blob-server", "blob-client", "blob-client",
+		"chainsync", "chainsync", "blockfetch", "blockfetch", "blockfetch", "incomplete", "large-legal",
 	}).Draw(rt, "family")
 	if f := os.Getenv("C13_FAMILY"); f != "" {
 		c.Family = f // experiments only
@@ -464,6 +480,9 @@ func genC13Case(rt *rapid.T, thorough bool) *c13Case {
 		n = rapid.IntRange(2, 40).Draw(rt, "n")
 		typical := rapid.SampledFrom([]int{2000, 90000, 400000, 900000}).Draw(rt, "typical")
 		sizes = genSizesUnderLimit(rt, n, 12, c.Limit, typical)
+		if rapid.Bool().Draw(rt, "firstBlockBig") {
+			sizes[0] = rapid.SampledFrom([]int{65536, 70000, 90000, 200000, 1000000}).Draw(rt, "firstBlock")
+		}
 		vol, sum := 9_000_000, 0
 		for i, s := range sizes {
 			sum += s
@@ -582,14 +601,27 @@ func genC13Case(rt *rapid.T, thorough bool) *c13Case {
 		}
 		c.Delays = append(c.Delays, d)
 	}
-	if rapid.Bool().Draw(rt, "delayTransitions") {
-		nt := rapid.IntRange(1, 6).Draw(rt, "nTransDelays")
+	if rapid.IntRange(0, 2).Draw(rt, "delayTransitions") > 0 {
+		nt := rapid.IntRange(2, 6).Draw(rt, "nTransDelays")
 		for i := 0; i < nt; i++ {
-			d := rapid.SampledFrom([]int{0, 1, 300, 2000}).Draw(rt, "transDelay")
+			d := rapid.SampledFrom([]int{0, 1, 300, 2000, 2000}).Draw(rt, "transDelay")
 			if d > 1 {
 				c.sumSleepUs += d
 			}
 			c.TransDelays = append(c.TransDelays, d)
+		}
+	}
+	if c.Family == "blockfetch" && rapid.IntRange(0, 3).Draw(rt, "delayStartBatch") > 0 {
+		// The known delicate point of this state map (see the comment on
+		// BusyMaxPendingMessageBytes): blocks are read while the state is still Busy
+		// because the StartBatch transition (the 2nd one, after the RequestRange send)
+		// has not been published yet. Hold exactly that transition back.
+		for len(c.TransDelays) < 2 {
+			c.TransDelays = append(c.TransDelays, 0)
+		}
+		if c.TransDelays[1] <= 1 {
+			c.TransDelays[1] = rapid.SampledFrom([]int{300, 2000, 5000}).Draw(rt, "startBatchDelay")
+			c.sumSleepUs += c.TransDelays[1]
 		}
 	}
 	if nm > 0 && rapid.IntRange(0, 9).Draw(rt, "gated") < 6 {
@@ -792,9 +824,86 @@ func runC13Case(c *c13Case) c13Outcome {
 		}
 		segs = mixed
 	}
+	// Causality: a peer can answer only what it has been asked. For the families in
+	// which the library speaks first (prelude) the peer's stream is therefore cut into
+	// segments on the fly: at any time it may only send the bytes of replies whose
+	// request it has already received (chain-sync: reply i needs request i; the
+	// single-request families: everything once the request has arrived).
+	requestsSeen := func() int {
+		buf := peer.Stream(cfg.ProtocolId, false)
+		n := 0
+		for len(buf) > 0 {
+			_, used, err := xcbor.Parse(buf)
+			if err != nil {
+				break
+			}
+			n++
+			buf = buf[used:]
+		}
+		return n
+	}
+	allowedEnd := func(seen int) int {
+		switch {
+		case len(prelude) == 0:
+			return len(stream)
+		case c.Family == "chainsync":
+			return r.prefix[min(seen, len(c.Wire))]
+		case seen >= len(prelude):
+			return len(stream)
+		}
+		return 0
+	}
+	stopWriter := make(chan struct{})
 	writerDone := make(chan error, 1)
+	dynamic := len(prelude) > 0
 	go func() {
+		if dynamic {
+			pos, ci, mi, seen := 0, 0, 0, 0
+			for pos < len(stream) {
+				limitEnd := allowedEnd(seen)
+				for limitEnd <= pos {
+					seen = requestsSeen()
+					if limitEnd = allowedEnd(seen); limitEnd > pos {
+						break
+					}
+					select {
+					case <-stopWriter:
+						writerDone <- nil
+						return
+					case <-time.After(50 * time.Microsecond):
+					}
+				}
+				for mi < len(c.Wire) && r.prefix[mi+1] <= pos {
+					mi++
+				}
+				n := 65535
+				if c.Cuts != nil {
+					n = c.Cuts[ci%len(c.Cuts)]
+					ci++
+				} else if mi < len(c.Wire) && r.prefix[mi+1]-pos < n {
+					n = r.prefix[mi+1] - pos // one message per segment
+				}
+				if n > limitEnd-pos {
+					n = limitEnd - pos
+				}
+				f := rawpeer.Frame(rawpeer.Seg{ProtoID: cfg.ProtocolId, Response: peerIsResponder, Payload: stream[pos : pos+n]})
+				if _, err := b.Write(f); err != nil {
+					writerDone <- err
+					return
+				}
+				pos += n
+				r.written.Add(int64(len(f)))
+			}
+			writerDone <- nil
+			return
+		}
 		for _, s := range segs {
+			select {
+			case <-stopWriter:
+				writerDone <- nil
+				return
+			default:
+			}
 			f := rawpeer.Frame(s)
 			if _, err := b.Write(f); err != nil {
 				writerDone <- err
@@ -830,7 +939,7 @@ func runC13Case(c *c13Case) c13Outcome {
 		r.mu.Lock()
 		n := int64(len(r.handled) + len(r.acc) + r.released)
 		r.mu.Unlock()
-		return n + tap.nRead.Load() + r.written.Load() + r.decoded.Load()
+		return n + tap.nRead.Load() + tap.nWritten.Load() + r.written.Load() + r.decoded.Load()
 	}
 	if !expectError {
 		ok := waitCond(patience, nil, progress, func() bool { return gotErr() || handledCount() >= nHandledWanted })
@@ -840,7 +949,8 @@ func runC13Case(c *c13Case) c13Outcome {
 			r.fail("C13:"+c.Family+":spurious-error", fmt.Sprintf("every message is within the limit (%d) but the protocol failed after %d of %d messages: %v", c.Limit, handledCount(), len(c.Wire), firstErr), nil)
 		case !ok:
 			r.fail("C13:"+c.Family+":stalled", fmt.Sprintf("only %d of %d messages were handled and nothing moved for %v (sender slowed down for ever)", handledCount(), len(c.Wire), patience),
-				map[string]any{"goroutines": goroutineDump(), "pending_now": r.P.VerifPendingRecvBytes(), "muxer_errors": fmt.Sprint(nonBlockingErrs(m.ErrorChan()))})
+				map[string]any{"goroutines": goroutineDump(), "pending_now": r.P.VerifPendingRecvBytes(), "muxer_errors": fmt.Sprint(nonBlockingErrs(m.ErrorChan())),
+					"transitions": r.traceCopy(), "requests_seen_by_peer": requestsSeen(), "decoder_calls": r.decoded.Load(), "bytes_written_by_peer": r.written.Load(), "bytes_read_by_library": tap.nRead.Load()})
 		default:
 			out.completed = true
 		}
@@ -928,6 +1038,7 @@ func runC13Case(c *c13Case) c13Outcome {
 	// same order as Connection.shutdown: the muxer first. (Protocol.Stop() blocks in
 	// Muxer.UnregisterProtocol for as long as the muxer's read loop is parked on this
 	// protocol's full receive channel, see findings/C13.md.)
+	close(stopWriter)
 	m.Stop()
 	r.P.Stop()
 	if sib != nil {
@@ -1004,7 +1115,7 @@ func TestC13(t *testing.T) {
 			}
 			f, _ := os.OpenFile(os.Getenv("C13_DEBUG"), os.O_APPEND|os.O_CREATE|os.O_WRONLY, 0o644)
 			defer f.Close()
-			fmt.Fprintf(f, "TIMING %s %.3fs n=%d bytes=%d cuts=%v gate=%d oversize=%d plan=%s\n", c.Family, time.Since(t0).Seconds(), len(c.Wire), tot, c.Cuts, c.Gate, c.Oversize, c.plan)
+			fmt.Fprintf(f, "TIMING %s %.3fs n=%d bytes=%d first=%v tdelays=%v cuts=%v gate=%d oversize=%d plan=%s fails=%d\n", c.Family, time.Since(t0).Seconds(), len(c.Wire), tot, clipInts(c.sizes(), 3), c.TransDelays, clipInts(c.Cuts, 4), c.Gate, c.Oversize, c.plan, len(out.fails))
 		}
 		rec.Eval()
 		r := out.run
